@@ -36,7 +36,8 @@ const (
 	OpWriteFD  = "writefd" // write to fd slot N
 	OpReadFD   = "readfd"
 	OpCloseFD  = "closefd"
-	OpRmRF     = "rmrf" // remove a tree bottom-up, one syscall per step
+	OpRmRF     = "rmrf"       // remove a tree bottom-up, one syscall per step
+	OpLeaveRm  = "leave-rmrf" // leave the run's working directory (Cfg.Cwd) for its parent, then remove it like rmrf (a directory that is some process's cwd is not freed by rmdir)
 	OpMkfifo   = "mkfifo"
 	// API operations
 	OpNewWatcher = "NewWatcher" // N<0: NewWatcher(), else NewBufferedWatcher(N)
@@ -77,6 +78,7 @@ type Cfg struct {
 	FaultInit  int                `json:"fault_init,omitempty"`
 	FaultRead  int                `json:"fault_read,omitempty"`
 	Reorder    int                `json:"reorder,omitempty"`   // F8: delay MOVED_TO halves past rename records of other tasks
+	Cwd        string             `json:"cwd,omitempty"`       // run with this sub-directory of the scratch root as working directory (so that a watch on "." can see its directory removed)
 	Lagfree    bool               `json:"lagfree,omitempty"`   // quiesce after every body operation (single sequential task)
 	Recurse    bool               `json:"recurse,omitempty"`   // enable the recursive-watch switch
 	Consumers  []ConsumerCfg      `json:"consumers,omitempty"` // per watcher index; default "both"
